@@ -166,6 +166,7 @@ func verifC02(mode int) {
 	}
 	quiesce()
 	reach("dispatched")
+	vassert(len(s.used) == 0, "no id stays reserved once every handler has returned and the reply is out")
 
 	// expectations
 	var exp []verifExpect
